@@ -48,3 +48,129 @@ Qed.
 
 Lemma decode_isa : forall o m md, decode o = Some (m, md) <-> isa m md = Some o.
 Proof. intros o m md. split; [apply decode_sound|apply decode_complete]. Qed.
+
+(* ---- registers stay bytes, pc stays a 16-bit address, RAM cells stay bytes ---- *)
+Definition wf_ram (m : ram) : Prop := Forall (fun p => 0 <= snd p < 256) (ram_over m).
+Definition wf_state (c : cpu) : Prop := wf_cpu c /\ wf_ram (rM c).
+
+Lemma byte8_range z : 0 <= byte8 z < 256.
+Proof. unfold byte8. apply Z.mod_pos_bound. lia. Qed.
+Lemma word16_range z : 0 <= word16 z < 65536.
+Proof. unfold word16. apply Z.mod_pos_bound. lia. Qed.
+
+Lemma over_find_range a l v : Forall (fun p => 0 <= snd p < 256) l -> over_find a l = Some v -> 0 <= v < 256.
+Proof.
+  induction l as [|[k x] r IH]; cbn [over_find]; [discriminate|].
+  intros F H. inversion F; subst. destruct (k =? a); [inversion H; subst; assumption|auto].
+Qed.
+Lemma ram_read_range m a : wf_ram m -> 0 <= ram_read m a < 256.
+Proof.
+  intro W. unfold ram_read. destruct (over_find a (ram_over m)) eqn:E; [eapply over_find_range; eassumption|].
+  unfold image_read. destruct (_ && _); [apply byte8_range|lia].
+Qed.
+Lemma rd_range m a : wf_ram m -> 0 <= rd m a < 256.
+Proof. intro. apply ram_read_range. assumption. Qed.
+Lemma wr_wf m a v : wf_ram m -> wf_ram (wr m a v).
+Proof.
+  intro W. unfold wr, ram_write, wf_ram. cbn [ram_over]. constructor; [cbn; apply byte8_range|].
+  unfold wf_ram in W. rewrite Forall_forall in *. intros p I. apply filter_In in I. apply W. tauto.
+Qed.
+
+(* bitwise operations on bytes stay bytes: swept *)
+Definition byte_op_check (op : Z -> Z -> Z) : bool :=
+  forallb (fun a => forallb (fun b => let r := op (Z.of_nat a) (Z.of_nat b) in (0 <=? r) && (r <? 256)) (seq 0 256)) (seq 0 256).
+Lemma land_check : byte_op_check Z.land = true. Proof. vm_compute. reflexivity. Qed.
+Lemma lor_check : byte_op_check Z.lor = true. Proof. vm_compute. reflexivity. Qed.
+Lemma lxor_check : byte_op_check Z.lxor = true. Proof. vm_compute. reflexivity. Qed.
+Lemma byte_op_range op a b : byte_op_check op = true -> 0 <= a < 256 -> 0 <= b < 256 -> 0 <= op a b < 256.
+Proof.
+  intros C Ha Hb. unfold byte_op_check in C. rewrite forallb_forall in C.
+  specialize (C (Z.to_nat a)). rewrite forallb_forall in C.
+  assert (In (Z.to_nat a) (seq 0 256)) as Ia by (apply in_seq; lia).
+  assert (In (Z.to_nat b) (seq 0 256)) as Ib by (apply in_seq; lia).
+  specialize (C Ia (Z.to_nat b) Ib). cbn zeta in C. rewrite !Z2Nat.id in C by lia. lia.
+Qed.
+Lemma land_range a b : 0 <= a < 256 -> 0 <= b < 256 -> 0 <= Z.land a b < 256.
+Proof. apply byte_op_range. exact land_check. Qed.
+Lemma lor_range a b : 0 <= a < 256 -> 0 <= b < 256 -> 0 <= Z.lor a b < 256.
+Proof. apply byte_op_range. exact lor_check. Qed.
+Lemma lxor_range a b : 0 <= a < 256 -> 0 <= b < 256 -> 0 <= Z.lxor a b < 256.
+Proof. apply byte_op_range. exact lxor_check. Qed.
+
+Lemma shift_val_range k cin v : 0 <= v < 256 -> 0 <= fst (shift_val k cin v) < 256.
+Proof.
+  intro H. destruct k; cbn [shift_val fst]; try apply byte8_range.
+  - split; [apply Z.div_pos; lia|apply Z.div_lt_upper_bound; lia].
+  - assert (0 <= v / 2 < 128) by (split; [apply Z.div_pos; lia|apply Z.div_lt_upper_bound; lia]).
+    unfold bz. destruct cin; lia.
+Qed.
+
+(* setters *)
+Ltac wfs := unfold wf_state, wf_cpu in *; cbn [rA rX rY rSP rPC rP rM set_pc set_a set_x set_y set_sp set_p set_m nz] in *.
+Lemma wf_set_pc c x : wf_state c -> wf_state (set_pc c x).
+Proof. intro. wfs. pose proof (word16_range x). tauto. Qed.
+Lemma wf_set_a c v : wf_state c -> 0 <= v < 256 -> wf_state (set_a c v).
+Proof. intros. wfs. tauto. Qed.
+Lemma wf_set_x c v : wf_state c -> 0 <= v < 256 -> wf_state (set_x c v).
+Proof. intros. wfs. tauto. Qed.
+Lemma wf_set_y c v : wf_state c -> 0 <= v < 256 -> wf_state (set_y c v).
+Proof. intros. wfs. tauto. Qed.
+Lemma wf_set_sp c v : wf_state c -> 0 <= v < 256 -> wf_state (set_sp c v).
+Proof. intros. wfs. tauto. Qed.
+Lemma wf_set_p c p : wf_state c -> wf_state (set_p c p).
+Proof. intros. wfs. tauto. Qed.
+Lemma wf_set_m c m : wf_state c -> wf_ram m -> wf_state (set_m c m).
+Proof. intros. wfs. tauto. Qed.
+Lemma wf_nz c v : wf_state c -> wf_state (nz c v).
+Proof. intros. unfold nz. apply wf_set_p. assumption. Qed.
+Lemma wf_regs c : wf_state c -> 0 <= rA c < 256 /\ 0 <= rX c < 256 /\ 0 <= rY c < 256 /\ 0 <= rSP c < 256 /\ wf_ram (rM c).
+Proof. intro. wfs. tauto. Qed.
+Lemma wf_rdv c a : wf_state c -> 0 <= rd (rM c) a < 256.
+Proof. intro H. apply rd_range. apply H. Qed.
+Lemma wf_push c v : wf_state c -> wf_state (push c v).
+Proof.
+  intro H. unfold push. apply wf_set_sp; [|apply byte8_range]. apply wf_set_m; [assumption|]. apply wr_wf. apply H.
+Qed.
+Lemma wf_pull c : wf_state c -> 0 <= fst (pull c) < 256 /\ wf_state (snd (pull c)).
+Proof.
+  intro H. unfold pull. cbn [fst snd]. split; [apply wf_rdv; assumption|]. apply wf_set_sp; [assumption|apply byte8_range].
+Qed.
+Lemma wf_adc c v : wf_state c -> wf_state (adc_bin c v).
+Proof. intro H. unfold adc_bin. apply wf_set_a; [apply wf_set_p; assumption|apply byte8_range]. Qed.
+Lemma wf_sbc c v : wf_state c -> wf_state (sbc_bin c v).
+Proof. intro H. unfold sbc_bin. apply wf_set_a; [apply wf_set_p; assumption|apply byte8_range]. Qed.
+Lemma wf_compare c r v : wf_state c -> wf_state (compare c r v).
+Proof. intro H. unfold compare. apply wf_set_p. assumption. Qed.
+
+Local Hint Resolve wf_set_pc wf_set_a wf_set_x wf_set_y wf_set_sp wf_set_p wf_set_m wf_nz wf_push wf_adc wf_sbc wf_compare
+  byte8_range word16_range wf_rdv land_range lor_range lxor_range wr_wf : wf.
+
+Lemma exec_instr_wf m md c c' : wf_state c -> exec_instr m md c = Some c' -> wf_state c'.
+Proof.
+  intros W H. pose proof (wf_regs c W) as (RA & RX & RY & RS & RM).
+  pose proof (fun a => wf_rdv c a W) as RD.
+  unfold exec_instr in H.
+  destruct m; cbn zeta in H;
+    try (inversion H; subst; clear H; auto 8 with wf; fail).
+  all: try (destruct (fD (rP c)); [discriminate|inversion H; subst; clear H; auto 8 with wf; fail]).
+  all: try (destruct md; match type of H with context [shift_val ?k ?ci ?v] =>
+         pose proof (shift_val_range k ci v) as SR; destruct (shift_val k ci v) as [r co]; cbn [fst] in SR end;
+         inversion H; subst; clear H; auto 10 with wf; fail).
+  all: try (match type of H with context [branch_cond ?m ?p] => destruct (branch_cond m p) as [[|]|] end;
+            inversion H; subst; clear H; auto 8 with wf; fail).
+  all: try (destruct (pull c) as [x c1] eqn:P1; pose proof (wf_pull c W) as WP; rewrite P1 in WP; cbn [fst snd] in WP; destruct WP as [Rx W1];
+            try (destruct (pull c1) as [y c2] eqn:P2; pose proof (wf_pull c1 W1) as WP2; rewrite P2 in WP2; cbn [fst snd] in WP2; destruct WP2 as [Ry W2]);
+            inversion H; subst; clear H; auto 8 with wf; fail).
+Qed.
+
+Lemma step_wf c : wf_state c -> wf_state (step c).
+Proof.
+  intro W. unfold step, exec. destruct (decode (opcode_at c)) as [[m md]|]; [|exact W].
+  destruct (exec_instr m md c) as [c'|] eqn:E; [|exact W]. eapply exec_instr_wf; eassumption.
+Qed.
+
+Lemma cpu_init_wf pc start data : wf_state (cpu_init pc (load_program start data)).
+Proof. unfold wf_state, wf_cpu, cpu_init, wf_ram. cbn. pose proof (word16_range pc). repeat split; try lia; constructor. Qed.
+
+Lemma run_states_wf : forall k pc start data, wf_state (Nat.iter k step (cpu_init pc (load_program start data))).
+Proof. induction k as [|k IH]; intros; [apply cpu_init_wf|cbn [Nat.iter]; apply step_wf; apply IH]. Qed.
